@@ -10,6 +10,7 @@ import (
 	"net"
 	"strings"
 	"sync"
+	"time"
 )
 
 const radSecret = "c16-secret"
@@ -30,6 +31,29 @@ type radSrv struct {
 	seen       map[string]bool      // retransmission filter: source address + packet bytes
 	nAuth      int
 	nAcct      int
+	holds      map[string]*radHold // Acct-Session-Id -> the answer to its next Stop is held back
+}
+
+// radHold holds back the answer to one Accounting-Stop (a slow RADIUS server): arrived is closed when the
+// record has been received (and recorded), the answer is sent when release is closed (or after 2 s, well inside the client's timeout).
+type radHold struct {
+	arrived chan struct{}
+	release chan struct{}
+	once    sync.Once
+}
+
+func (h *radHold) open() { h.once.Do(func() { close(h.release) }) }
+
+// hold arms a hold for the next Accounting-Stop of the session.
+func (s *radSrv) hold(session string) *radHold {
+	h := &radHold{arrived: make(chan struct{}), release: make(chan struct{})}
+	s.mu.Lock()
+	if s.holds == nil {
+		s.holds = map[string]*radHold{}
+	}
+	s.holds[session] = h
+	s.mu.Unlock()
+	return h
 }
 
 func listenPair() (*net.UDPConn, *net.UDPConn, int) {
@@ -179,6 +203,24 @@ func (s *radSrv) loop(c *net.UDPConn) {
 				s.nAcct++
 				s.recs[a.session] = append(s.recs[a.session], acctRec{Status: a.status, Session: a.session, User: a.user, NAS: a.nas, Cause: a.cause})
 				s.mu.Unlock()
+			}
+			if a.status == 2 && !dup {
+				s.mu.Lock()
+				h := s.holds[a.session]
+				delete(s.holds, a.session)
+				s.mu.Unlock()
+				if h != nil {
+					id := buf[1]
+					go func() {
+						close(h.arrived)
+						select {
+						case <-h.release:
+						case <-time.After(2 * time.Second):
+						}
+						s.reply(c, addr, 5, id, reqAuth, nil)
+					}()
+					continue
+				}
 			}
 			if strings.HasSuffix(a.nas, "-nak") {
 				// the record is received but not acknowledged as accounting: the client sees a failure
